@@ -8,7 +8,7 @@ import numpy as np
 from .. import core
 
 RULE = ("all 10 input types x 5 Neuroglancer output types; values: type limits and limits±1, 0, ±0.5, ±1.5, "
-        "±2.5, 254.5, 255.5, 65535.5, 2^24±1, 2^31, 2^32±1, 2^53±1, 2^63, 2^64 (±1 ulp), ±1e30, float "
+        "±2.5, 254.5, 255.5, 65535.5, near-ties k+0.5±2^-j and ±1 ulp (double-rounding probes),  2^24±1, 2^31, 2^32±1, 2^53±1, 2^63, 2^64 (±1 ulp), ±1e30, float "
         "subnormals and random values; each evaluated with preserve_input True and False on contiguous, "
         "strided and read-only arrays; result compared with the exact nearest-value oracle and the Lean "
         "model; input bytes hashed before/after. Trivial = identical input/output type.")
@@ -73,6 +73,13 @@ def values_for(dt, rng):
             3.4028235e38, 1e-310, 16777217.0, 0.1, -0.1, 1e10, -300.7]
     base += [rng.uniform(-70000, 70000) for _ in range(10)] + [rng.uniform(0, 2**33) for _ in range(5)] \
         + [rng.choice([-1, 1]) * rng.random() * 2.0**rng.randrange(-160, 128) for _ in range(6)]
+    # double-rounding probes: float64 values that are NOT ties but lie within float32 (or coarser) rounding
+    # distance of a tie k + 0.5 -- a work type narrower than the input rounds them onto the tie first
+    for k in [0, 1, 2, 3, 100, 101, 254, 255, 32766, 32767, 65534, 65535, 2**24 - 2, 2**24 - 1, 2**31 - 1,
+              2**32 - 2, 2**32 - 1, rng.randrange(0, 256), rng.randrange(256, 65536), rng.randrange(65536, 2**32)]:
+        t = k + 0.5
+        base += [float(np.nextafter(t, np.inf)), float(np.nextafter(t, -np.inf)),
+                 t + 2.0**-rng.randrange(8, 50), t - 2.0**-rng.randrange(8, 50), -(t + 2.0**-rng.randrange(8, 50))]
     arr = np.array(base, dtype=np.float64).astype(d)
     return [v for v in arr if np.isfinite(v)]
 
